@@ -40,15 +40,23 @@ Lemma resample_same_shape_lockstep :
   existsb (fun J => in_hull ex_grid g' J && negb (qeqb (ival out J) (ival ex_img J))) (indices (ishape out)) = true.
 Proof. intros op g' out. repeat split; vm_compute; reflexivity. Qed.
 
-(* downsample a 5 x 4 image once: the grid keeps the fractional size 5/2 (3 samples), the data has 3 samples; upsample:
-   the grid returns to 5 samples, the data path doubles the tensor shape to 6 -- shapes disagree *)
-Lemma upsample_fractional_size_refuted :
-  let g := mkG (K:=QcF) [q 5 2; q 2 1] [q 2 1; q 2 1] [q 0 1; q 0 1] [[q 1 1; q 0 1]; [q 0 1; q 1 1]] true in
+(* downsample a 5 x 4 image once: the grid keeps the fractional size 5/2 (3 samples), the data has 3 samples; upsample: the grid
+   returns to 5 samples.  On the repaired code the data is resized to the grid's size (before: the tensor shape was doubled to 6
+   and the shapes disagreed): shapes agree and the ramp on the 3 x 2 grid is the ramp on the upsampled grid inside the hull *)
+Definition ex_frac_grid : dgrid (K:=QcF) := mkG (K:=QcF) [q 5 2; q 2 1] [q 2 1; q 2 1] [q 0 1; q 0 1] [[q 1 1; q 0 1]; [q 0 1; q 1 1]] true.
+Definition ex_frac_img : qimg := mkI (K:=QcF) [3; 2]%Z (ex_ramp ex_frac_grid).
+Definition in_hull_of (g g' : dgrid (K:=QcF)) (J : list Z) : bool :=
+  forallb (fun p => Qle_bool 0 (this (fst p)) && Qle_bool (this (fst p)) (inject_Z (snd p - 1)))
+          (combine (gen_pts (K:=QcF) 2 WORLD GRID (nK (K:=QcF) ceilQc g) (sp g) (ce g) (di g) (d_itw (K:=QcF) ceilQc 2 g' (map (of_Z (K:=QcF)) J)))
+                   (nZ (K:=QcF) ceilQc g)).
+Lemma upsample_fractional_size_lockstep :
   let op := OUp (K:=QcF) 1 None None in
-  let g' := apply_op (K:=QcF) ceilQc floorQc leQc 2 op g in
-  nZ (K:=QcF) ceilQc g = [3; 2]%Z /\
-  nZ (K:=QcF) ceilQc g' = [5; 4]%Z /\
-  up_size 1 None [3; 2]%Z = [6; 4]%Z.
+  let g' := apply_op (K:=QcF) ceilQc floorQc leQc 2 op ex_frac_grid in
+  let out := apply_data 2 (IGrid op (q 0 1) []) ex_frac_grid g' ex_frac_img in
+  nZ (K:=QcF) ceilQc ex_frac_grid = [3; 2]%Z /\ up_size 1 None [3; 2]%Z = [6; 4]%Z /\
+  nZ (K:=QcF) ceilQc g' = [5; 4]%Z /\ ishape out = nZ (K:=QcF) ceilQc g' /\
+  forallb (fun J => negb (in_hull_of ex_frac_grid g' J) || qeqb (ival out J) (ex_ramp g' J)) (indices (ishape out)) = true /\
+  existsb (fun J => in_hull_of ex_frac_grid g' J) (indices (ishape out)) = true.
 Proof. intros. repeat split; vm_compute; reflexivity. Qed.
 
 (* ---------- floor / ceiling facts used by the shape lemmas, for the executable instance ---------- *)
@@ -158,7 +166,7 @@ Proof.
 Qed.
 
 (* upsample: the data path doubles the ROUNDED size, the grid path the FLOAT size: they agree when the float size is integral
-   (the fractional case is C04_upsample_fractional_size_refuted) *)
+   (the fractional case: C04_upsample_fractional_size_lockstep) *)
 Lemma shape_agrees_upsample_int_Qc (D : nat) (L : nat) (a : option bool) (g : dgrid (K:=QcF)) (sizes : list Z) :
   fs g = map (of_Z (K:=QcF)) sizes ->
   nZ (K:=QcF) ceilQc (g_upsample (K:=QcF) ceilQc leQc D L None a g) = up_size L None (nZ (K:=QcF) ceilQc g).
